@@ -668,6 +668,10 @@ class MDNewton:
             fxn = -fx
             Jx = J(*x0)
             s = self.ctx.lu_solve(Jx, fxn)
+            if any(si != si for si in s):
+                # (the damping loop below would never end)
+                raise ValueError('Could not find root: the function or its '
+                    'Jacobian is not a number at %s' % list(x0))
             if self.verbose:
                 print('Jx:')
                 print(Jx)
